@@ -3,6 +3,7 @@ package main
 import (
 	"fmt"
 	"math/rand"
+	"os"
 	"strings"
 
 	"verif/core"
@@ -41,10 +42,29 @@ func passesEnharmonic(k theory.Key, chain string) bool {
 
 // convCLI runs one conversion and judges it; returns the printed set.
 func convCLI(c *core.Ctx, stream string, idx int, k theory.Key, chain string) {
-	r := run(c, nil, "info", "key", "conv", "--key", k.String(), "-c", chain)
+	convCLIOut(c, stream, idx, k, chain, idx%23 == 7, 10)
+}
+
+// convCLIOut runs one conversion; with toFile the result goes to -o (every other time onto a file that
+// already holds older, longer content) and is read back from there.
+func convCLIOut(c *core.Ctx, stream string, idx int, k theory.Key, chain string, toFile bool, cpu int) {
+	args := []string{"info", "key", "conv", "--key", k.String(), "-c", chain}
+	var outPath string
+	if toFile {
+		outPath = c.Scratch.Path("conv.out")
+		if idx%2 == 1 {
+			os.WriteFile(outPath, []byte("C#m\nDbm\nEbm\nF#m\nG#m\nprevious result\n"), 0o644)
+		}
+		args = append(args, "-o", outPath)
+	}
+	r := runCPU(c, cpu, nil, args...)
 	c.Eval(1)
 	if infra(c, r) {
 		return
+	}
+	if toFile && r.OK() {
+		r.Stdout = readFileOrNil(outPath)
+		c.Count("results_read_from_o_file", 1)
 	}
 	sig := fmt.Sprintf("conv:%s:%s", k, chain)
 	if len(chain) > 8 {
@@ -75,7 +95,7 @@ func convCLI(c *core.Ctx, stream string, idx int, k theory.Key, chain string) {
 
 func checkC14(c *core.Ctx) {
 	L := c.N(4, 6)
-	c.Rule(fmt.Sprintf("exhaustive: 28 supported keys x every chain over {p,r,d,s} of length 1..%d through `info key conv`, plus the laws ds=sd=rr=pp=d^12=s^12=identity asserted on crd's output, plus random chains of length 7..40; "+
+	c.Rule(fmt.Sprintf("exhaustive: 28 supported keys x every chain over {p,r,d,s} of length 1..%d through `info key conv`, plus the laws ds=sd=rr=pp=d^12=s^12=identity asserted on crd's output, plus random chains of length 7..40 and chains of 65,535..100,000 steps; a sample of the results is written with -o (fresh file / existing longer file) and read back; "+
 		"the printed key set must equal the fold of the four pitch-class rules expressed as all supported spellings; non-trivial = chain of length >= 2 from a key other than C that passes through an enharmonic slot; distinct by (key, chain)", L))
 	c.Assume("theory.ConvertPC / SpellingsOf (pitch-class arithmetic)", "output order is not compared here (C12)")
 	c.Exhaustive(!c.Quick()) // the space the property names (chains up to length 6) is swept in thorough
@@ -105,6 +125,21 @@ func checkC14(c *core.Ctx) {
 		k := keys[i%len(keys)]
 		law := laws[i/len(keys)]
 		convCLI(c, "laws", i, k, law)
+	})
+	// very long chains (beyond any line or token buffer): the fold is still cheap to compute
+	huge := []int{65535, 65536, 70000, 100000}
+	c.Stream("huge", len(huge)*c.N(1, 3), func(i int, r *rand.Rand) {
+		n := huge[i%len(huge)]
+		k := keys[r.Intn(len(keys))]
+		var b strings.Builder
+		if i < len(huge) {
+			b.WriteString(strings.Repeat("d", n)) // n dominants: n mod 12 fifths up
+		} else {
+			for j := 0; j < n; j++ {
+				b.WriteByte("prds"[r.Intn(4)])
+			}
+		}
+		convCLIOut(c, "huge", i, k, b.String(), false, 300)
 	})
 	c.Stream("long", c.N(300, 2000), func(i int, r *rand.Rand) {
 		k := keys[r.Intn(len(keys))]
